@@ -95,14 +95,16 @@ def instances(tier, seed):
              {'fam': 'L1'}, {'fam': 'B1'}, {'fam': 'B2'}, {'fam': 'T1', 'K': 2, 'C': 2, 'bias': False}, {'fam': 'M2'},
              # strided conv + BN; BN with eps of the order of the variances (outputs compared up to TOL on the box |x| <= 2)
              {'fam': 'T2', 'K0': 2, 'K1': 1, 'T': 3, 's0': 2}, {'fam': 'T2', 'K0': 2, 'K1': 1, 'T': 2, 'bn_stats': 'generic'},
-             {'fam': 'D2', 'C': 2, 'cin': 1, 'HW': 2, 'pool': 'none', 'bn_stats': 'generic'}]
+             {'fam': 'D2', 'C': 2, 'cin': 1, 'HW': 2, 'pool': 'none', 'bn_stats': 'generic'},
+             # a freezable sub-module with a Dropout that the converted model shares with the user's model
+             {'fam': 'Z1', 'nd': 1}, {'fam': 'Z1', 'nd': 2}]
     if tier == 'thorough':
         progs += [{'fam': 'K1', 'origins': ['s', 'f']}, {'fam': 'K2', 'T': 2}, {'fam': 'W1', 'nd': 2}, {'fam': 'F1', 'variant': 'module'}, {'fam': 'X1', 'kind': 'conv', 'exclude': 'name'},
                   {'fam': 'D2', 'C': 3, 'cin': 2, 'pool': 'avg'}, {'fam': 'R2'}]
     out = []
     for s in progs:
         for fold in (False, True):
-            for mode in (('eval', 'train', 'mixed') if s in progs[:3] else ('eval', 'train')):
+            for mode in (('eval', 'train', 'mixed') if (s in progs[:3] or s.get('fam') == 'Z1') else ('eval', 'train')):
                 out.append({'id': f'PIT:{pitlib.prog_id(s)}:fold={int(fold)}:{mode}', 'what': 'pit', 'spec': s, 'fold': fold, 'mode': mode, 'wseed': seed})
     sns = [{'n': 2, 'kind': 'conv'}, {'n': 3, 'kind': 'seq'}, {'n': 3, 'kind': 'mix'}, {'n': 2, 'kind': 'conv', 'bn': True}]
     if tier == 'thorough':
@@ -110,7 +112,7 @@ def instances(tier, seed):
     for s in sns:
         for mode in ('eval', 'train', 'mixed'):
             out.append({'id': f'SuperNet:{snlib.prog_id(s)}:{mode}', 'what': 'sn', 'spec': s, 'mode': mode, 'wseed': seed})
-    for s in ({'fam': 'D2', 'C': 2, 'cin': 2}, {'fam': 'L1'}):
+    for s in ({'fam': 'D2', 'C': 2, 'cin': 2}, {'fam': 'L1'}, {'fam': 'Z1', 'nd': 2}):
         for mode in ('eval', 'train', 'mixed'):
             out.append({'id': f'MPS:{pitlib.prog_id(s)}:{mode}', 'what': 'mps', 'spec': s, 'mode': mode, 'wseed': seed})
     return out
